@@ -77,9 +77,13 @@ static void bls_rows(void) {
         ROW(embedded_pairing_bls12_381_g2prepared_is_zero, { gen(p2, t); pp->prepare(p2); ok = embedded_pairing_bls12_381_g2prepared_is_zero((embedded_pairing_bls12_381_g2prepared_t*) pp) == pp->is_zero(); })
         ROW(embedded_pairing_bls12_381_prepared_pairing, { CLR(); gen(p1, t + 1); gen(p2, t + 2); pp->prepare(p2); embedded_pairing_bls12_381_prepared_pairing((cgt*) &eo, (cg1a*) &p1, (embedded_pairing_bls12_381_g2prepared_t*) pp); pairing(er, p1, *pp); ok = eq(eo, er); })
         ROW(embedded_pairing_bls12_381_pairing_sum, { CLR(); gen(p1, t + 1); gen(p2, t + 2); gen(q1, t + 3); gen(q2, t + 1); pp->prepare(q2);
-            embedded_pairing_bls12_381_affine_pair_t ap; embedded_pairing_bls12_381_prepared_pair_t prp; ap.g1 = (cg1a*) &p1; ap.g2 = (cg2a*) &p2; prp.g1 = (cg1a*) &q1; prp.g2 = (embedded_pairing_bls12_381_g2prepared_t*) pp;
-            embedded_pairing_bls12_381_pairing_sum((cgt*) &eo, &ap, 1, &prp, 1);
-            AffinePair a; PreparedPair b; a.g1 = &p1; a.g2 = &p2; b.g1 = &q1; b.g2 = pp; pairing_product(er, &a, 1, &b, 1); ok = eq(eo, er); })
+            // list shapes by trial: (affine, prepared) counts over {0,1,2} x {0,1,2}, the empty list included, NULL arrays for empty lists
+            int na = t % 3, np = (t / 3) % 3;
+            embedded_pairing_bls12_381_affine_pair_t ap[2]; embedded_pairing_bls12_381_prepared_pair_t prp[2]; AffinePair a[2]; PreparedPair b[2];
+            for (int i = 0; i < 2; i++) { ap[i].g1 = (cg1a*) (i ? &q1 : &p1); ap[i].g2 = (cg2a*) &p2; a[i].g1 = i ? &q1 : &p1; a[i].g2 = &p2;
+                                          prp[i].g1 = (cg1a*) (i ? &p1 : &q1); prp[i].g2 = (embedded_pairing_bls12_381_g2prepared_t*) pp; b[i].g1 = i ? &p1 : &q1; b[i].g2 = pp; }
+            embedded_pairing_bls12_381_pairing_sum((cgt*) &eo, na ? ap : NULL, (size_t) na, np ? prp : NULL, (size_t) np);
+            pairing_product(er, na ? a : NULL, (size_t) na, np ? b : NULL, (size_t) np); ok = eq(eo, er); })
         free(pc); free(pp);
     }
     ROW(embedded_pairing_bls12_381_pairing, { CLR(); gen(p1, t + 1); gen(p2, t + 2); embedded_pairing_bls12_381_pairing((cgt*) &eo, (cg1a*) &p1, (cg2a*) &p2); pairing(er, p1, p2); ok = eq(eo, er); })
